@@ -1,6 +1,7 @@
 package otto
 
 import (
+	"math"
 	"reflect"
 	"strconv"
 )
@@ -31,12 +32,11 @@ func (o goSliceObject) getValue(index int64) (reflect.Value, bool) {
 }
 
 func (o *goSliceObject) setLength(value Value) {
-	want, err := value.ToInteger()
-	if err != nil {
-		panic(err)
-	}
-
-	if float, _ := value.ToFloat(); want < 0 || float != float64(want) {
+	// value.number() raises what a throwing valueOf raises as a JavaScript
+	// exception (the exported ToInteger would turn it into a Go error).
+	float := value.float64()
+	want := int64(float)
+	if want < 0 || float != float64(want) || want > math.MaxInt32 {
 		// Like the length of an array (15.4.5.1 step 3.d).
 		panic(newError(nil, "RangeError", 0, "invalid slice length"))
 	}
